@@ -560,6 +560,7 @@ class KernelRIM(LinearModel):
         return kernel
 
     def fit(self, X, y=None):
+        self._validate_params()
         # We start by storing the input data for later kernel computations
         X = check_array(X)
         self.input_data_ = X
